@@ -906,3 +906,8 @@ add("E-filter-02-default-threshold-helper", ["C13", "C04", "C10"], "heavyhitters
     "        if threshold is None:\n            threshold = self._default_threshold()\n        else:\n            threshold = np.uint32(threshold)\n\n        if (self.n_added_sort", kind="E",
     also=[("heavyhitters", "    def add(self, key: bytes, value: int = 1) -> None:\n        \"\"\"\n        Add a single `key` to the heavy hitters sketch",
            "    def _default_threshold(self):\n        return np.uint32(self.phi * self.n_added())\n\n    def add(self, key: bytes, value: int = 1) -> None:\n        \"\"\"\n        Add a single `key` to the heavy hitters sketch")])
+
+add("tree-08-skips-merging-empty-looking-sketches", ["C08"], "helpers",
+    "        for i in range(n_to_merge // 2):\n            sketch1 = (sketch_type, sketch_args, sketch_array[i * 2].shm.name)",
+    "        for i in range(n_to_merge // 2):\n            if sketch_type != \"hll\" and sketch_array[i * 2 + 1].n_added() == 0:\n                continue\n            sketch1 = (sketch_type, sketch_args, sketch_array[i * 2].shm.name)",
+    rules=["mergetree"])
